@@ -271,6 +271,25 @@ def build(tier="quick", seed=0):
             pack.add(Obligation(name, lambda tier, name=name, keep=keep, nrec=nrec: prove_paths(name, th_short_prefix(keep, nrec), lambda p, nrec=nrec: (p.value[0] == [("c04_rec", 5 + i) for i in range(nrec - 1)], f"read back {p.value[0]!r}, ended {p.value[1]}: exactly the {nrec - 1} completely written record(s) may be yielded")),
                                 replay=lambda w, keep=keep, nrec=nrec: {"call": "c04_short_prefix", "args": {"keep": keep, "records": nrec}}, functions=FU, mode="whole loop, concrete frames"))
 
+    def th_equal_frames_cut(cut_back):
+        # two EQUAL record frames one behind the other, the file ends inside the second one: what the reader still holds of the first frame must not complete the second
+        def th():
+            D, Do = two_descs()
+            r = it.call(D, [], {"n": 5, "s": "same"})
+            pre, blob = frame_of(it, pk, r)
+            if blob.concrete is None or not isinstance(pre, bytes):
+                raise Unsupported("concrete record without concrete bytes")
+            data = pre + blob.concrete + pre + blob.concrete
+            fp, rd = reader_at_loop_head(it, st, [data[: len(data) - cut_back]], registry(D, Do))
+            out, end = drain(it, it.call(it.getattr_(rd, "__iter__"), [], {}))
+            return len(out), end if isinstance(end, str) else end[:2]
+        return th
+
+    for cut_back in (1, 3, 10):
+        name = f"C04.iter[two equal record frames, the file ends {cut_back} byte(s) before the end of the second]"
+        pack.add(Obligation(name, lambda tier, name=name, cut_back=cut_back: prove_paths(name, th_equal_frames_cut(cut_back), lambda p: (p.value[0] == 1, f"yielded {p.value[0]} record(s), ended {p.value[1]}: exactly the one completely written record may be yielded")),
+                            replay=lambda w, cut_back=cut_back: {"call": "c04_equal_frames_cut", "args": {"cut_back": cut_back}}, functions=FU, mode="whole loop, concrete frames"))
+
     def th_symtail():
         D, Do = two_descs()
         t = z3.Int("t")
